@@ -1061,6 +1061,9 @@ func (env *Zlisp) LeftBindingPower(sx Sexp) (int, error) {
 		return 0, nil
 	case *SexpStr:
 		return 0, nil
+	case *SexpSentinel, *SexpChar, *SexpUint64:
+		// nil, 'c' and 1ULL are operands like the other literals.
+		return 0, nil
 	case *SexpSymbol:
 		op, found := env.infixOps[x.name]
 		if x.name == "if" {
